@@ -10,11 +10,19 @@ disasmEngine.dis_multiblock is compared with what those say:
  * heads      every constraint destination that is an instruction address of a
               block is a block head (and, without blocs_wd, owns a block)
  * successors bto == decoded direct destinations (+ call targets only with
-              follow_call) + fall-through; graph edges mirror bto
+              follow_call) + fall-through; graph edges mirror bto.  The rule is applied
+              per block as produced by _dis_block: when apply_splitting cut it, every
+              piece but the last falls through to the next piece and the last piece
+              carries the flow (identical to the per-block rule without delay slots; a
+              jump into a delay slot leaves the branch's destinations on the delay-slot
+              piece, the order of execution)
               [weakened on purpose: the fall-through of a block cut by lines_wd
               is optional]
  * options    dont_dis never decoded, split_dis starts blocks, lines_wd and
-              blocs_wd respected
+              blocs_wd respected (a branch is never separated from its delay slots:
+              split_dis on a delay-slot address is ignored and lines_wd may be exceeded
+              by the delay slots, as the engine documents); termination: _dis_block is
+              called at most once per address (step bound, not a clock)
  * simplifier bbl_simplifier: the sequences of non-jump instructions over all
               paths (first 10 instructions) from every surviving head are unchanged
 """
